@@ -5,7 +5,6 @@ import (
 	"fmt"
 	"math"
 	"strings"
-	"unicode/utf8"
 
 	"github.com/anoideaopen/foundation/core/balance"
 	"github.com/anoideaopen/foundation/core/cctransfer"
@@ -323,8 +322,10 @@ func (bc *BaseContract) QueryChannelTransfersFrom(pageSize int64, bookmark strin
 		pageSize = math.MaxInt32
 	}
 
+	// the keys that start with the prefix are exactly those below the prefix with its last byte
+	// incremented; prefix+MaxRune would leave out records whose id begins with U+10FFFF
 	prefix := cctransfer.CCFromTransfers()
-	startKey, endKey := prefix, prefix+string(utf8.MaxRune)
+	startKey, endKey := prefix, prefix[:len(prefix)-1]+string(prefix[len(prefix)-1]+1)
 
 	if bookmark != "" && !strings.HasPrefix(bookmark, prefix) {
 		return nil, cctransfer.ErrInvalidBookmark
